@@ -4,6 +4,7 @@
 //!                            (same request language as the Lean driver).
 //! `harness prop  < cases`  — evaluates the property itself on the implementation.
 mod frame;
+mod reader;
 mod util;
 
 use std::io::{self, BufRead, Write};
@@ -45,10 +46,12 @@ fn main() {
 /// Each module answers the requests it knows (`None` = not mine).
 fn dispatch_impl(toks: &[&str]) -> String {
     None.or_else(|| frame::dispatch_impl(toks))
+        .or_else(|| reader::dispatch_impl(toks))
         .unwrap_or_else(|| "bad-request".to_owned())
 }
 
 fn dispatch_prop(toks: &[&str]) -> String {
     None.or_else(|| frame::dispatch_prop(toks))
+        .or_else(|| reader::dispatch_prop(toks))
         .unwrap_or_else(|| "SKIP no-oracle".to_owned())
 }
